@@ -205,14 +205,21 @@ def run(ctx):
         hs = [rnd_table(rnd, mode if i == 0 else "plain", first=(i == 0)) for i in range(rnd.randint(1, 3))]
         rev = rnd.random() < 0.5
         runs = []
+        short = rnd.random() < 0.3          # rules written for short host names (registry option match_short_name), devices carry FQDNs
+        nested = short and rnd.random() < 0.5
         for perm in itertools.permutations(range(len(hs))):
             st, a, b = topo(nlinks, rev)
-            reg = MeshRulesRegistry()
+            reg = MeshRulesRegistry(match_short_name=True) if short else MeshRulesRegistry()
+            lm, rm = ("a{n}", "b{n}") if short else ("a{n}.ex", "b{n}.ex")
             for hi in perm:
                 if kind == "direct":
-                    reg.direct("a{n}.ex", "b{n}.ex", port_processor=united_ports)(mk_handler(hs[hi], hi))
+                    reg.direct(lm, rm, port_processor=united_ports)(mk_handler(hs[hi], hi))
                 else:
-                    reg.indirect("a{n}.ex", "b{n}.ex")(mk_handler(hs[hi], hi))
+                    reg.indirect(lm, rm)(mk_handler(hs[hi], hi))
+            if nested:                      # ... also when that registry is included into a plain one
+                outer = MeshRulesRegistry()
+                outer.include(reg)
+                reg = outer
             ex = MeshExecutor(reg, st)
             one = {"order": list(perm), "errA": False, "errB": False, "A": [], "B": []}
             for dev, key in ((a, "A"), (b, "B")):
